@@ -1460,13 +1460,14 @@ func (r *Raft) InstallSnapshot(
 	}
 
 	r.snapshot = nil
-	r.lastIncludedIndex = request.LastIncludedIndex
-	r.lastIncludedTerm = request.LastIncludedTerm
 
 	// If an existing log entry has the same index and term as the last index
 	// and last term, discard the log through the last index and reply.
 	if entry, _ := r.log.GetEntry(request.LastIncludedIndex); entry != nil &&
 		entry.Term == request.LastIncludedTerm {
+		r.lastIncludedIndex = request.LastIncludedIndex
+		r.lastIncludedTerm = request.LastIncludedTerm
+
 		// Wait for all operations up to last included index have been applied before compacting the log.
 		for r.state != Shutdown && r.lastApplied < request.LastIncludedIndex {
 			r.applyCond.Wait()
@@ -1510,6 +1511,11 @@ func (r *Raft) InstallSnapshot(
 		return nil
 	}
 
+	// The log does not match the snapshot, so the snapshot boundary must only be moved together
+	// with the log being discarded. Otherwise, requests handled while the lock was released would
+	// be checked against the new boundary but applied to the old log.
+	r.lastIncludedIndex = request.LastIncludedIndex
+	r.lastIncludedTerm = request.LastIncludedTerm
 	r.lastApplied = request.LastIncludedIndex
 	r.commitIndex = request.LastIncludedIndex
 
